@@ -630,7 +630,13 @@ class Hist:
                             self.insync = True
                         self.judge_roundtrip()
                 else:
-                    drv.run(st.save())
+                    try:
+                        drv.run(st.save())
+                    except Exception as ex:
+                        # nothing was made to fail: what is stored cannot be read back because it was never written
+                        self.err("C14:roundtrip:save-raises", "save() raised %s although no file-system call failed; the stored settings "
+                                 "cannot be read back" % type(ex).__name__)
+                        raise
                     obs = ("unit",)
                     if self.kind == "memory" or was_changed:
                         self.last = self.contents()
@@ -1061,6 +1067,22 @@ def histories(ctx, sections):
                     yield ("glue", kind, None, pre + [{"op": "pyscan", "devices": devs, "identifier": flt, "unicast": pos % 2 == 1}] + tail)
             for flt in ("A", "B2", ["C", "A2"], "Z"):
                 yield ("glue", kind, None, pre + [{"op": "pyscan", "devices": base + [unknown], "identifier": flt}] + tail)
+
+    # the zero-device boundary: devices come into the storage (looked up, or loaded from a file), all of
+    # them are removed again, save, load into a fresh storage: nothing may come back
+    for n in (1, 2, 3):
+        cfgs = [[svc(p, "%s%d" % (p, i), cr="cred%d" % i)] for i, p in enumerate(["mrp", "raop", "dmap"][:n])]
+        gets = [{"op": "get", "cfg": c} for c in cfgs]
+        removes = [{"op": "remove", "h": i} for i in range(n)]
+        end = [{"op": "save"}, {"op": "changed"}, {"op": "fresh"}, {"op": "load"}, {"op": "changed"}, {"op": "scan", "cfg": cfgs[0]}]
+        for kind in ("file", "memory"):
+            yield ("zero-devices", kind, None, gets + [{"op": "save"}] + removes + end)
+            yield ("zero-devices", kind, None, gets + removes + end)
+            yield ("zero-devices", kind, None, gets + [{"op": "save"}, {"op": "fresh"}, {"op": "load"}] + [{"op": "remove", "h": n + i} for i in range(n)] + end)
+        init = (1, [[(c[0]["p"], [("identifier", c[0]["id"]), ("credentials", c[0]["cr"])])] for c in cfgs])
+        yield ("zero-devices", "file", init, [{"op": "load"}] + removes + end)
+        yield ("zero-devices", "file", init, [{"op": "load"}] + removes[:-1] + [{"op": "save"}] + removes[-1:] + end)
+    yield ("zero-devices", "file", (1, []), [{"op": "load"}, {"op": "changed"}, {"op": "save"}, {"op": "fresh"}, {"op": "load"}])
 
     # every declared field with every candidate value through save and a load into a fresh storage
     for sec, fl in sections:
